@@ -894,6 +894,11 @@ pub fn c10(ix: &Index) -> Vec<Viol> {
     if names_ambiguous(h) {
         return out;
     }
+    // a scope operation that panics (e.g. on the library's own nesting assertions) means the
+    // thread's local context is no longer what the well-nested program says
+    for p in &h.panics {
+        out.push(v("C10", format!("panic:{}", p.op), format!("vt{}: {} panicked during a well-nested scope sequence: {}", p.vt, p.op, p.msg)));
+    }
     let mut groups: BTreeMap<(usize, u64), Vec<&Probe>> = BTreeMap::new();
     for p in &h.probes {
         groups.entry((p.vt, p.ctx_ver)).or_default().push(p);
